@@ -112,6 +112,30 @@ def gen_cases(tier, seed):
                 base['transfers'][k]['subs'] = [{}, {}]
                 base['plan'].setdefault('faults', []).append({'at': f't{k}/cb:on_done:s0#0', 'phase': 'before', 'kind': 'exc', 'tag': f'FAULT-ondone-{k}'})
         cases.append({'base': base, 'dist': copy.deepcopy(base), 'victims': list(range(n)), 'style': 'cancelling-exit', 'exit': base['mode']})
+    # a ranged download fails while every slot of the (tiny) IO stage is taken by another download whose destination is slow, and a
+    # transfer tracked before it has failed already (so the manager's wait() loop leaves early): the failed download's last steps
+    # still have to get through the full IO stage before shutdown returns
+    for i in range(40 if quick else 400):
+        cfg = dict(multipart_threshold=8, multipart_chunksize=8, io_chunksize=rng.choice([4, 8]), num_download_attempts=1,
+                   max_io_queue_size=1, max_request_concurrency=rng.choice([2, 3]), max_submission_concurrency=rng.choice([1, 2, 3]),
+                   max_request_queue_size=rng.choice([2, 1000]), max_in_memory_download_chunks=rng.choice([2, 3]))
+        slow_dst = rng.choice(['path', 'seekable', 'nonseekable'])
+        ts = [{'kind': 'delete', 'size': 3},
+              {'kind': 'download', 'dst': slow_dst, 'size': rng.choice([24, 33])},
+              {'kind': 'download', 'dst': rng.choice(['path', 'seekable', 'nonseekable']), 'size': rng.choice([24, 33, 41])}]
+        if rng.random() < 0.3:
+            ts[1], ts[2] = ts[2], ts[1]
+        slow = [k for k, t in enumerate(ts) if t is not ts[0]][0] if ts[1].get('dst') == slow_dst else 1
+        slow = 1 if ts[1]['dst'] == slow_dst else 2
+        victim = 3 - slow
+        base = {'seed': rng.randrange(1 << 30), 'config': cfg, 'transfers': ts, 'mode': 'shutdown_plain', 'trigger': 'immediate',
+                'plan': {'gate': {'match': [f't{slow}/' + ('fs:write' if ts[slow]['dst'] == 'path' else 'dst:write'), 't0/s3:DeleteObject'], 'phase': 'before',
+                                  'policy': 'seeded', 'after_cancel_begin': True}}}
+        dist = copy.deepcopy(base)
+        part = 8 * rng.randrange(0, 3)
+        dist['plan']['faults'] = [{'at': 't0/s3:DeleteObject#0', 'phase': 'before', 'kind': 'exc', 'tag': 'FAULT-v0'},
+                                  {'at': f't{victim}/s3:GetObject:{part}#0', 'phase': rng.choice(['before', 'body']), 'bytes': 3, 'kind': 'exc', 'tag': f'FAULT-v{victim}'}]
+        cases.append({'base': base, 'dist': dist, 'victims': [0, victim], 'style': 'failed-download-io-full', 'exit': 'shutdown_plain'})
     # failures whose cleanup fails too (the part request and the abort both fail; the write and the temp-file removal both fail)
     # while other transfers run: the barrier and the neighbours must not notice
     for i in range(40 if quick else 400):
